@@ -204,12 +204,184 @@ def gen_wide_docs(ctx, n):
     return docs
 
 
+# ------------------------------------------------------------------ declarations whose value is empty
+# The half-typed form of a declaration (name and colon typed, value still missing: `color:;`, `color: ;`), the empty
+# custom property (`--x:;`, valid CSS) and the value that was commented out (`color: /* red */;`).  The slot between
+# colon and semicolon then holds nothing, white space only, or white space and comments only.  The record marks such a
+# declaration with 'empty': True and no tokens; vstart == vend are placeholders (see oracle_one / record_variants).
+EMPTY_SLOTS = ['', ' ', '  ', '\t', '\n', '\n    ', '\r\n', '/**/', ' /* red */ ', '/*;*/', ' /* } */', '/* a: b; */ ',
+               '/*{*/ /*:*/', ' \n /* x */ \n ']
+EMPTY_NAMES = ['color', 'b', '--x', '--custom', '$v', 'margin-top', '*zoom', '-webkit-transition']
+
+
+def _ev_items(o, spec):
+    """css_util.mk_sheet with one more form: a declaration with NO atoms has an empty value"""
+    items = []
+    for it in spec:
+        if isinstance(it, str):
+            o.w(it)
+        elif it[0] == 'rule':
+            _, sel, gap, children = it
+            r = {'t': 'rule', 'start': o.pos}
+            o.w(sel)
+            r['sel_end'] = o.pos
+            o.w(gap)
+            r['brace'] = o.pos
+            o.w('{')
+            r['children'] = _ev_items(o, children)
+            r['close'] = o.pos
+            o.w('}')
+            r['end'] = o.pos
+            items.append(r)
+        elif it[4]:
+            sub = U.Out()
+            sub.pos = o.pos
+            items += U._mk_items(sub, [it])
+            o.w(sub.text())
+        else:
+            _, name, pre, post, _atoms, tail, _term = it
+            d = {'t': 'decl', 'start': o.pos, 'empty': True, 'tokens': []}
+            o.w(name)
+            d['name_end'] = o.pos
+            o.w(pre)
+            d['colon'] = o.pos
+            o.w(':')
+            o.w(post + tail)
+            d['semi'] = d['vstart'] = d['vend'] = o.pos
+            o.w(';')
+            d['end'] = o.pos
+            items.append(d)
+    return items
+
+
+def mk_sheet_ev(spec):
+    o = U.Out()
+    items = _ev_items(o, spec)
+    return o.text(), items
+
+
+_VARIANTS = {}
+
+
+def record_variants(items):
+    """The records a sheet with empty values stands for: every empty value placed at the first and at the last
+    position of its slot (colon + 1, semicolon).  [items] itself for a sheet without empty values."""
+    hit = _VARIANTS.get(id(items))
+    if hit is not None and hit[0] is items:
+        return hit[1]
+    if not any(n.get('empty') for n in U.preorder(items)):
+        out = [items]
+    else:
+        def place(ns, last):
+            res = []
+            for n in ns:
+                n = dict(n)
+                if n['t'] == 'rule':
+                    n['children'] = place(n['children'], last)
+                elif n.get('empty'):
+                    n['vstart'] = n['vend'] = n['semi'] if last else n['colon'] + 1
+                res.append(n)
+            return res
+        out = [place(items, False), place(items, True)]
+    if len(_VARIANTS) > 4000:
+        _VARIANTS.clear()
+    _VARIANTS[id(items)] = (items, out)
+    return out
+
+
+def empty_decl_spec(rng, cover):
+    name = rng.choice(EMPTY_NAMES)
+    slot = rng.choice(EMPTY_SLOTS)
+    cover('empty-value:slot:%s' % ('nothing' if slot == '' else 'white-space' if not slot.strip() else 'comment'))
+    cover('empty-value:name:%s' % ('custom-property' if name.startswith('--') else 'scss-variable' if name.startswith('$') else 'plain'))
+    return ('decl', name, pick(rng, ['', '', '', ' ', lambda: rng.choice(U.COMMENTS)]), slot, [], '', True)
+
+
+def empty_items(rng, cover, depth, top, p):
+    """mk_sheet_ev specification of a body; p = share of the declarations whose value is empty"""
+    spec = []
+    for _ in range(rng.randint(1 if top else 0, 3)):
+        spec.append(U.rnd_gap(rng))
+        if depth < 3 and rng.random() < (0.7 if top else 0.3):
+            sel = pick(rng, [lambda: rng.choice(U.SELECTORS), lambda: 'a[title=%s]' % U.rnd_string(rng)])
+            spec.append(('rule', sel, pick(rng, [lambda: U.rnd_ws(rng), lambda: U.rnd_ws(rng) + rng.choice(U.COMMENTS)]),
+                         empty_items(rng, cover, depth + 1, False, p)))
+        elif rng.random() < p:
+            spec.append(empty_decl_spec(rng, cover))
+            cover('empty-value:%s' % ('top-level' if top else 'nested-rule' if depth > 1 else 'in-rule'))
+        else:
+            atoms = []
+            for i in range(rng.choice((1, 1, 2, 3))):
+                atoms.append(('' if i == 0 else rng.choice([' ', ', ', ' / ', '\n    ']),
+                              pick(rng, [lambda: rng.choice(U.ATOMS), lambda: rng.choice(U.ATOMS), lambda: U.rnd_string(rng)])))
+            spec.append(('decl', rng.choice(U.NAMES), pick(rng, ['', '', ' ']), pick(rng, [' ', ' ', '', '\n    ']), atoms,
+                         pick(rng, ['', '', ' ']), True))
+    spec.append(U.rnd_gap(rng))
+    return spec
+
+
+def gen_empty_value_docs(ctx, n_small, n_random):
+    """Sheets with declarations whose value is empty: a sample of the small systematic ones (every name x slot x shape
+    is a candidate: only / first / last / middle child, in a nested rule, before and after a nested rule, at top level
+    before / after / between rules, inside an at-rule, next to comments, strings and parentheses) and random trees in
+    which a third, two thirds or all of the declarations are value-less."""
+    rng = ctx.rng
+    docs = []
+    combos = [(sh, nm, sl) for sh in range(len(EMPTY_SHAPE_SPECS)) for nm in EMPTY_NAMES for sl in EMPTY_SLOTS]
+    for sh, nm, sl in (rng.sample(combos, n_small) if n_small < len(combos) else combos):
+        docs.append(mk_sheet_ev(_fill(EMPTY_SHAPE_SPECS[sh], ('decl', nm, '', sl, [], '', True))))
+        ctx.cover('empty-value:systematic-sheets')
+        ctx.cover('empty-value:slot:%s' % ('nothing' if sl == '' else 'white-space' if not sl.strip() else 'comment'))
+    for _ in range(n_random):
+        p = rng.choice((0.34, 0.67, 1.0))
+        docs.append(mk_sheet_ev(empty_items(rng, ctx.cover, 0, True, p)))
+        ctx.cover('empty-value:random-sheets')
+        ctx.cover('empty-value:random-sheets:share-of-declarations-%d%%' % int(p * 100))
+    return docs
+
+
+# the systematic shapes, as mk_sheet_ev specifications with a hole _D for the value-less declaration:
+# a{D}  a { D }  a{Dc:d;}  a{c:d;D}  a{c:d; D e:f;}  a{b{D}}  a{b{}D}  a{Db{c:d;}}  D  Da{}  a{}D  a{}\nD\nb{c:d;}
+# @media (min-width: 1px) { a:hover {D} }  a{/* x */D/* y */}  a{c:"};";Dc:(d);}
+_D = object()
+_CD = ('decl', 'c', '', '', [('', 'd')], '', True)
+EMPTY_SHAPE_SPECS = [
+    [('rule', 'a', '', [_D])],
+    [('rule', 'a', ' ', [' ', _D, ' '])],
+    [('rule', 'a', '', [_D, _CD])],
+    [('rule', 'a', '', [_CD, _D])],
+    [('rule', 'a', '', [_CD, ' ', _D, ' ', ('decl', 'e', '', '', [('', 'f')], '', True)])],
+    [('rule', 'a', '', [('rule', 'b', '', [_D])])],
+    [('rule', 'a', '', [('rule', 'b', '', []), _D])],
+    [('rule', 'a', '', [_D, ('rule', 'b', '', [_CD])])],
+    [_D],
+    [_D, ('rule', 'a', '', [])],
+    [('rule', 'a', '', []), _D],
+    [('rule', 'a', '', []), '\n', _D, '\n', ('rule', 'b', '', [_CD])],
+    [('rule', '@media (min-width: 1px)', ' ', [' ', ('rule', 'a:hover', ' ', [_D]), ' '])],
+    [('rule', 'a', '', ['/* x */', _D, '/* y */'])],
+    [('rule', 'a', '', [('decl', 'c', '', '', [('', '"};"')], '', True), _D, ('decl', 'c', '', '', [('', '(d)')], '', True)])],
+]
+
+
+def _fill(spec, decl):
+    out = []
+    for it in spec:
+        if it is _D:
+            out.append(decl)
+        elif isinstance(it, tuple) and it[0] == 'rule':
+            out.append(it[:3] + (_fill(it[3], decl),))
+        else:
+            out.append(it)
+    return out
+
+
 def oracle_doc(text, items, im):
     """first failing (pos, func, why) per function, over all positions"""
     bad = {}
     for pos in range(-1, len(text) + 2):
         got = {f: im[f][pos + 1] for f in FUNCS}
-        for f, why in U.c10_oracle(text, items, pos, got):
+        for f, why in c10_oracle(text, items, pos, got):
             if f not in bad:
                 bad[f] = (pos, why)
     return bad
@@ -309,7 +481,7 @@ def call_sequences(ctx, docs):
             n += 1
             ctx.count_eval()
             ctx.cover('call-sequence-queries')
-            bad = U.c10_oracle(text, items, pos, got)
+            bad = c10_oracle(text, items, pos, got)
             if bad:
                 bad_n += 1
                 f, why = bad[0]
@@ -353,12 +525,18 @@ def _raw_call(f, text, pos):
 
 _raw_limited = common.limited(_raw_call)
 # the calls made in this process, most recent last (call_sequences and the scripts below): a failure inside a script may
-# be due to what an EARLIER call left behind in the library, so the replay carries the calls that preceded the script
-CALL_LOG = collections.deque(maxlen=120)
+# be due to what an EARLIER call left behind in the library -- or to what the caller did to an EARLIER answer the library
+# still refers to -- so the replay carries the calls that preceded the script (f, text, pos, serial number of the answer)
+# and the in-place uses of those answers ('use', serial, how, k, pos)
+CALL_LOG = collections.deque(maxlen=240)
+_SERIAL = [0]
+_LAST_SERIAL = [None]
 
 
 def raw_call(f, text, pos):
-    CALL_LOG.append((f, text, pos))
+    _SERIAL[0] += 1
+    _LAST_SERIAL[0] = _SERIAL[0]
+    CALL_LOG.append((f, text, pos, _SERIAL[0]))
     return _raw_limited(f, text, pos)
 
 
@@ -379,17 +557,41 @@ def canon(f, raw):
 
 
 def oracle_one(text, items, pos, f, got):
-    """the statement for ONE function at one position, against the generator's record; None when it holds"""
+    """the statement for ONE function at one position, against the generator's record; None when it holds.
+    A declaration whose value is EMPTY (record field 'empty') has no value text the body could be compared with: the
+    statement ("from its name to its terminating semicolon with the value as body") then fixes name start and end
+    exactly and says of the body only that it is the (empty) value, i.e. an empty range inside the value slot --
+    after the colon, not after the semicolon: colon < body_start == body_end <= semicolon.  balanced_outward() never
+    lists empty ranges, so it is pinned exactly; balanced_inward() treats a position up to the value's end as a direct
+    hit of the declaration, so both ends of the slot are accepted for that test and nothing beyond them."""
+    variants = record_variants(items)
     if f == 'match':
-        exp = U.expected_match(items, pos)
-        ok = got == exp
+        exp = U.expected_match(variants[-1], pos)
+        chain = U.enclosing_chain(items, pos)
+        if chain and chain[-1].get('empty'):
+            n = chain[-1]
+            ok = (isinstance(got, tuple) and len(got) == 5 and got[:3] == exp[:3] and type(got[3]) is int
+                  and got[3] == got[4] and n['colon'] < got[3] <= n['semi'])
+            exp = '%r with an empty body v..v inside the value slot, %d < v <= %d' % (exp[:3], n['colon'], n['semi'])
+        else:
+            ok = got == exp
     elif f == 'outward':
-        exp = ('ok', U.expected_outward(text, items, pos))
+        exp = ('ok', U.expected_outward(text, variants[-1], pos))
         ok = got == exp
     else:
-        exp = ('ok', U.expected_inward(text, items, pos))
-        ok = got == exp or got == ('ok', U.expected_inward(text, items, pos, value_body=True))
-    return None if ok else '%s(pos=%d) = %r, the record says %r' % (OWNED_FUNCS[f], pos, got, exp)
+        exp = ('ok', U.expected_inward(text, variants[-1], pos))
+        ok = any(got == ('ok', U.expected_inward(text, v, pos, value_body=vb)) for v in variants for vb in (False, True))
+    return None if ok else '%s(pos=%d) = %r, the record says %s' % (OWNED_FUNCS[f], pos, got, exp if isinstance(exp, str) else repr(exp))
+
+
+def c10_oracle(text, items, pos, got):
+    """got: dict func -> canonical result of the implementation at pos; list of (func, description) that fail"""
+    bad = []
+    for f in FUNCS:
+        why = oracle_one(text, items, pos, f, got[f])
+        if why:
+            bad.append((f, why))
+    return bad
 
 
 def use_answer(v, how, k, pos):
@@ -458,7 +660,7 @@ def run_owned_script(text, items, steps, cover=None):
         if st['op'] == 'ask':
             src = ''.join(list(text)) if st.get('copy') else text
             raw = raw_call(st['func'], src, st['pos'])
-            slots[st['slot']] = {'func': st['func'], 'pos': st['pos'], 'raw': raw, 'used': False}
+            slots[st['slot']] = {'func': st['func'], 'pos': st['pos'], 'raw': raw, 'used': False, 'serial': _LAST_SERIAL[0]}
             why = oracle_one(text, items, st['pos'], st['func'], canon(st['func'], raw))
             if why:
                 return (n, st['func'], st['pos'], why, 'asked again' if st.get('again') else 'asked')
@@ -466,6 +668,7 @@ def run_owned_script(text, items, steps, cover=None):
             sl = slots[st['slot']]
             if sl['raw'][0] == 'ok' and use_answer(sl['raw'][1], st['how'], st['k'], sl['pos']):
                 sl['used'] = True
+                CALL_LOG.append(('use', sl['serial'], st['how'], st['k'], sl['pos']))
                 if cover:
                     cover('owned:use:%s:%s' % (sl['func'], st['how']))
         elif st['op'] == 'reread':
@@ -523,20 +726,35 @@ def owned_script(rng, text, pos, f, cover):
 
 def pack_calls(calls):
     texts = []
-    for _, t, _ in calls:
-        if t not in texts:
-            texts.append(t)
-    return {'texts': texts, 'calls': [[f, texts.index(t), p] for f, t, p in calls]}
+    out = []
+    for c in calls:
+        if c[0] == 'use':
+            out.append(list(c))
+            continue
+        if c[1] not in texts:
+            texts.append(c[1])
+        out.append([c[0], texts.index(c[1]), c[2]] + ([c[3]] if len(c) > 3 else []))
+    return {'texts': texts, 'calls': out}
 
 
 def replay_owned(text, items, steps, calls_before):
-    """the script alone; when the property holds on it, the recorded earlier calls and then the script"""
-    bad = run_owned_script(text, items, steps)
-    if bad or not calls_before or not calls_before.get('calls'):
-        return bad, False
-    for f, ti, p in calls_before['calls']:
-        raw_call(f, calls_before['texts'][ti], p)
-    return run_owned_script(text, items, steps), True
+    """In a fresh process: the recorded earlier calls (and what the caller did to their answers) and then the script,
+    i.e. what the run did; when the property holds on that, the script once more alone."""
+    if calls_before and calls_before.get('calls'):
+        kept = {}
+        for c in calls_before['calls']:
+            if c[0] == 'use':
+                raw = kept.get(c[1])
+                if raw is not None and raw[0] == 'ok':
+                    use_answer(raw[1], c[2], c[3], c[4])
+            else:
+                raw = raw_call(c[0], calls_before['texts'][c[1]], c[2])
+                if len(c) > 3:
+                    kept[c[3]] = raw
+        bad = run_owned_script(text, items, steps)
+        if bad:
+            return bad, True
+    return run_owned_script(text, items, steps), False
 
 
 def caller_owned_answers(ctx, docs, per_sheet):
@@ -565,8 +783,9 @@ def caller_owned_answers(ctx, docs, per_sheet):
                          'note': 'steps: ask = call func(text, pos) (copy: with an equal string built separately) and keep '
                                  'the raw answer in the slot; use = the caller edits the answer of that slot in place; '
                                  'reread = read the kept answer of that slot again; calls_before = the calls made in the '
-                                 'process before the script (the replay runs the script alone and, when that passes, '
-                                 'these calls and then the script)'})
+                                 'process before the script, [func, text index, pos, serial], and the in-place uses of '
+                                 'their answers, [use, serial, how, k, pos] (the replay runs these and then the script '
+                                 'and, when that passes, the script alone)'})
                     if bad_n >= 5:
                         break
             if bad_n >= 5:
@@ -598,7 +817,19 @@ def run(ctx):
         'and small { } : ; ( ) " \' / * \\ , Greek question mark, ratio, typographic quotes) and letters/digits/marks '
         '(accented, length-changing case mappings, combining mark, non-ASCII digits, CJK, beyond the BMP); by the CSS '
         'syntax all of these are ordinary name characters and the record counts them as part of the word they stand '
-        'in (U+00A0 and U+000C are not generated: the statement does not say which side they are on); every '
+        'in (U+00A0 and U+000C are not generated: the statement does not say which side they are on); then '
+        'stylesheets with declarations whose value is EMPTY (buckets empty-value:*; the half-typed `name:;`, the '
+        'empty custom property `--x:;`, the commented-out value `name: /* red */;`): the slot between colon and '
+        'semicolon holds nothing, white space only (space, tab, LF, CRLF) or white space and comments only (also '
+        'comments holding ; } { :), for plain names, custom properties and SCSS variables -- a sample of the '
+        'systematic small sheets name x slot x shape (only / first / last / middle child, in a nested rule, before '
+        'and after a nested rule, at top level before / after / between rules, inside an at-rule under a '
+        'pseudo-selector, next to comments, strings and parentheses) and random trees in which a third, two '
+        'thirds or all declarations are value-less; for such a declaration the oracle demands name start and end '
+        '(semicolon + 1) exactly and an empty body inside the value slot (colon < v <= semicolon), '
+        'balanced_outward exactly (empty ranges are never listed), balanced_inward with the direct-hit test up to '
+        'either end of the slot; these sheets are compared with the extracted model like all others and lie '
+        'outside the Level B grammar (reported there as declaration-with-empty-value); every '
         'position -1..len+1; match, balanced_outward, balanced_inward compared with the generator\'s record (oracle) '
         'and with the extracted model (correspondence). Call sequences: positions of two sheets in shuffled order '
         'with queries on half-typed sheets in between. Caller-owned answers (buckets owned:*, oracle only, the model '
@@ -617,6 +848,8 @@ def run(ctx):
     docs += gen_docs(ctx, 260 if quick else 5000, not quick)
     n_classic = len(docs)
     docs += gen_wide_docs(ctx, 70 if quick else 1400)
+    n_wide = len(docs)
+    docs += gen_empty_value_docs(ctx, 90 if quick else 10 ** 6, 40 if quick else 800)
     texts = [t for t, _ in docs]
     impls = U.impl_docs(texts, FUNCS, procs)
     ctx.cover('docs', len(docs))
@@ -637,7 +870,7 @@ def run(ctx):
         bad = oracle_doc(text, items, im)
         for f, (pos, why) in bad.items():
             failures.append((len(text), i, f, pos, why))
-        if n_corpus <= i < n_corpus + 3 or n_classic <= i < n_classic + 2:
+        if n_corpus <= i < n_corpus + 3 or n_classic <= i < n_classic + 2 or n_wide <= i < n_wide + 2:
             ctx.sample({'text': text, 'match@%d' % (len(text) // 2): repr(im['match'][len(text) // 2 + 1]),
                         'outward': repr(im['outward'][len(text) // 2 + 1])})
     failures.sort()
@@ -704,7 +937,7 @@ def replay(ctx, obj):
     if rp.get('check') == 'c10-sequence':
         for t, q in rp.get('history', []):
             got = {f: U.IMPL[f](t, q) for f in ('match', 'outward', 'inward')}
-        bad = U.c10_oracle(text, rp['items'], rp['pos'], got)
+        bad = c10_oracle(text, rp['items'], rp['pos'], got)
         print('after the recorded call history, position %d of %r: %s' % (rp['pos'], text, bad[0][1] if bad else 'property holds'))
         return 1 if bad else 0
     if rp.get('check') == 'c10-owned':
